@@ -376,9 +376,9 @@ static void worker(int w, int W, uint64_t start)
     memset(&g, 0, sizeof g);
     g.root_kind = VK_OBJ; g.max_tokens = N_BYTES; g.classes = cls; g.nclasses = 8; g.names = names; g.nnames = 3; g.cb = on_doc_bytes;
     vf_gen_run(&g);
-    static const int cls2[] = { LC_INT8, LC_INT64, LC_STR, LC_STRNUL, LC_BYT, LC_DBL, LC_FALSE, LC_OBJ, LC_ARR };
+    static const int cls2[] = { LC_INT8, LC_INT64, LC_STR, LC_STR0, LC_STRNUL, LC_BYT, LC_BYT0, LC_DBL, LC_FALSE, LC_OBJ, LC_ARR };      /* incl. empty string / empty bytes (data() may be NULL) */
     memset(&g, 0, sizeof g);
-    g.root_kind = VK_OBJ; g.max_tokens = N_TREE; g.classes = cls2; g.nclasses = 9; g.names = names; g.nnames = 5; g.max_obj_depth = 10; g.cb = on_doc_tree;
+    g.root_kind = VK_OBJ; g.max_tokens = N_TREE; g.classes = cls2; g.nclasses = 11; g.names = names; g.nnames = 5; g.max_obj_depth = 10; g.cb = on_doc_tree;
     vf_gen_run(&g);
 }
 
@@ -449,7 +449,7 @@ int main(int argc, char **argv)
     snprintf(bound, sizeof bound,
              "bytes: every object-framed sequence of <= %d tokens and every unframed sequence of <= 2 tokens (incl. the empty vector) over the %d-token hostile alphabet, every valid "
              "object with <= %d value tokens and ALL its one-deviation mutants, 3 documents over 1000 bytes, each through the 3 deserialize overloads; trees: every object with <= %d "
-             "value tokens over 7 leaf classes and keys {\"\", \"\\0k\", \"a\", \"ab\", 0x80}, built through put() in EVERY insertion order of every object's keys; wrapper built with "
+             "value tokens over 9 leaf classes (incl. empty string and empty bytes) and keys {\"\", \"\\0k\", \"a\", \"ab\", 0x80}, built through put() in EVERY insertion order of every object's keys; wrapper built with "
              "-ftrivial-auto-var-init=%s",
              L_TOK, VF_NTOK_HOSTILE, N_BYTES, N_TREE, getenv("VERIF_VARIANT") ? getenv("VERIF_VARIANT") : "zero");
     const char *prev = getenv("VERIF_CXX_PREV");
